@@ -238,6 +238,12 @@ func (x *Exec) frameObligations(fr *Frame, ct *Contract, fin *State, reach *Term
 		if mods[d] && (x.sp.Records[d] != nil || x.isGhost(d)) {
 			continue
 		}
+		if fs := x.fieldofFamilies(d); fs != nil {
+			for _, f := range fs {
+				wholeFam[f.Name] = true
+			}
+			continue
+		}
 		if strings.HasPrefix(d, "family(") {
 			wholeFam[strings.TrimSuffix(strings.TrimPrefix(d, "family("), ")")] = true
 			continue
